@@ -465,7 +465,7 @@ class C15:
     # ------------------------------------------------------------------- model
     def coq_header(self):
         return ("From Coq Require Import ZArith List.\n"
-                "From LW Require Import Base.Sx Model.Tomo Exec.RunC15.\n")
+                "From LW Require Import Base.Sx Model.Tomo Exec.RunC15.\nImport ListNotations.\n")
 
     def coq_expr(self, c):
         k = c["kind"]
